@@ -78,4 +78,28 @@ DIFFERENT broker objects do not touch each other's state, tasks on one shared ob
 def runAllPool (w : World) (orderOf : List Comp → List Comp) (h : Heap) (ts sched : List Task) : Heap × List Ref :=
   (runTasks w orderOf h sched, ts.map (·.2))
 
+/-! ### a loaded archive (`SerializedArchiveContext` in the broker) through the incremental drivers
+
+`run(graph, broker)` first runs its pruning loop (`archivePrune`, Model/Dr.lean) on the dict it is given — here the yielded
+sub-graph dict `{s: get_dependencies(s) for s in seen}` — with the instances the broker holds AT THAT MOMENT, then evaluates
+what is left in a topological order of it. -/
+
+/-- the dict `get_subgraphs` yields for the key list `sg` -/
+def subDict (deps : Comp → List Comp) (sg : List Comp) : Graph := sg.map (fun k => (k, deps k))
+
+/-- `run(graph, _broker)` on a loaded-archive broker; `none` of the pruning loop / the sort = the call raises (KeyError /
+cycle) and nothing is evaluated -/
+def runTaskArchive (w : World) (pick : List Comp → List Comp) (deps : Comp → List Comp) (h : Heap) (t : Task) : Heap :=
+  match archivePrune (h t.2).broker.inst (subDict deps t.1) with
+  | none => h
+  | some g' =>
+    match toposort pick g' with
+    | none => h
+    | some o =>
+      upd h t.2 { h t.2 with
+        broker := runComponents w (fun c => g'.keys.contains c) (h t.2).storeSkips o (h t.2).broker }
+
+def runTasksArchive (w : World) (pick : List Comp → List Comp) (deps : Comp → List Comp) (h : Heap) (ts : List Task) : Heap :=
+  ts.foldl (runTaskArchive w pick deps) h
+
 end IV.Dr
